@@ -251,3 +251,13 @@ Definition create_request (base pattern : bytes) (ps : list (bytes * bytes)) (ca
       end
     end
   end.
+
+(* ---------- several operations on one Runtime ---------- *)
+(* CreateHttpRequest reads the Runtime (host, base path, transport schemes) and the operation and keeps
+   nothing from one call to the next: a history of operations built on one Runtime is the list of the
+   single requests. One operation: pattern, path parameters (map order), caller query, scheme list. *)
+Definition hop : Type := (bytes * list (bytes * bytes) * qmap * list bytes)%type.
+Definition create_step (base : bytes) (rs : list bytes) (host : bytes) (s : hop) : outcome :=
+  let '(pattern, ps, caller, os) := s in create_request base pattern ps caller rs os host.
+Definition create_history (base : bytes) (rs : list bytes) (host : bytes) (steps : list hop) : list outcome :=
+  map (create_step base rs host) steps.
